@@ -16,14 +16,25 @@ def base():
     # a formula with a side effect (lookupOrAddDerived), guarded so that it stays quiet in normal recalculation
     d.apply(["AddColumn", "B", "SE", {"type": "Any", "isFormula": True,
                                       "formula": "A.lookupOrAddDerived(Name='zz' + str($id)).id if $id > 5 else 0"}])
+    # ... and one whose side effect is followed by an error: the engine takes the added record back, at recalculation and
+    # again every time the cell is re-evaluated for get_formula_error / evaluate_formula
+    d.apply(["AddColumn", "B", "SE2", {"type": "Any", "isFormula": True,
+                                       "formula": "a = A.lookupOrAddDerived(Name='nn' + str($id))\nreturn 1 / a.N"}])
     _base.append(F.Saved(d))
   return _base[0]
+
+
+# what the document went through just before the read-only call (its own bundle): the out-action bookkeeping that
+# checkpoints are taken against differs after an add to a table with formula columns, an update, a removal
+PRIOR = [None, ["AddRecord", "B", None, {}], ["UpdateRecord", "A", 1, {"N": 5}], ["AddRecord", "A", None, {"Name": "w"}],
+         ["RemoveRecord", "B", 1], ["BulkAddRecord", "B", [None, None], {"R": [1, 2]}]]
 
 
 def tables_cols(d):
   out = []
   for t in ["A", "B"] + sorted(d.summary_tables()) + ["_grist_Tables_column"]:
-    cols = [c for c in d.e.tables[t].all_columns if not c.startswith("#")][:9]
+    cols = [c for c in d.e.tables[t].all_columns if not c.startswith("#")]
+    cols = [c for c in cols if c in ("SE", "SE2")] + [c for c in cols if c not in ("SE", "SE2")][:9]
     out.append((t, cols))
   return out
 
@@ -52,6 +63,11 @@ def do_call(d, call):
 
 
 def judge(d, call):
+  if call.get("prior"):
+    try:
+      d.apply(list(call["prior"]))
+    except Exception:
+      pass
   s0 = F.snap(d.e)
   try:
     do_call(d, call)
@@ -96,6 +112,8 @@ def make_body(shard):
           call["row"] = h.choice("row", ROWS if kind != "evaluate_formula" else ROWS[:4])
         if kind == "autocomplete":
           call["text"] = h.choice("text", TEXTS)
+    if kind in ("get_formula_error", "evaluate_formula", "autocomplete", "get_formula_prompt", "fetch_table"):
+      call["prior"] = h.choice("prior", PRIOR)
     msg = judge(d, call)
     return {"nontrivial": True, "violations": ([{"msg": msg, "witness": call}] if msg else []), "sample": call}
   return body
@@ -117,7 +135,7 @@ META = {
             "and changes nothing (exceptions from the call itself are allowed)",
   "rule": "one evaluation = one (call kind, table, column, row, text/values) cube on a restored copy of fixture 'views' + a "
           "lookupOrAddDerived formula; all are non-trivial",
-  "bounds": {"calls": KINDS, "rows": ROWS, "autocomplete texts": TEXTS, "tables": "A, B, the summary table, _grist_Tables_column; first 9 columns each"},
+  "bounds": {"calls": KINDS, "rows": ROWS, "autocomplete texts": TEXTS, "bundle applied just before the call": PRIOR, "tables": "A, B, the summary table, _grist_Tables_column; first 9 columns each"},
 }
 
 
